@@ -283,6 +283,17 @@ def someE {α : Type} (e : Err) (x : Option α) : Except Err α :=
 @[simp] theorem someE_some {α : Type} (e : Err) (a : α) : someE e (some a) = .ok a := rfl
 @[simp] theorem someE_none {α : Type} (e : Err) : someE e (none : Option α) = .error e := rfl
 
+/-- `x.hex()`: two lower-case hex digits per byte (as code points) -/
+def hexDigit (n : Nat) : Nat := if n < 10 then 48 + n else 87 + n
+def hexStr (x : Bytes) : List Nat := x.flatMap fun b => [hexDigit (b.toNat / 16), hexDigit (b.toNat % 16)]
+
+/-- `bytes(n)`: `n` zero bytes, ValueError for a negative `n` -/
+def zerosE (n : Int) : Except Err Bytes := if n < 0 then .error .value else .ok (List.replicate n.toNat 0)
+
+/-- `bytearray.append(v)`: ValueError unless `v` is in range(256) -/
+def appendByteE (x : Bytes) (v : Int) : Except Err Bytes :=
+  if v < 0 ∨ v ≥ 256 then .error .value else .ok (x ++ [UInt8.ofNat v.toNat])
+
 /-! ### loops -/
 
 /-- `range(a, b)` -/
